@@ -1,10 +1,12 @@
-(* C14 — deciding obligations. Statements only, closed by the lemmas proved in Cliff/PauliProofs.v. *)
+(* C14 — deciding obligations. Statements only, closed by the lemmas proved in Cliff/PauliProofs.v.
+   K is any ring with i*i = -1 (PLaws; every RingOps.Laws instance, in particular C, is one: PLaws_of_Laws);
+   qs is the ordered qubit list the matrices are taken over (PauliString.matrix(qubits)). *)
 From Coq Require Import List ZArith Bool.
 From VF Require Import Base.RingOps Base.Mat Cliff.Pauli Cliff.PauliProofs Generated.PauliTables.
 Import ListNotations.
 Close Scope Z_scope.
 
-(* the regenerated tables cover their whole finite domain and are the model's decision functions *)
+(* ---- the regenerated tables cover their whole finite domain and are the model's decision functions ---- *)
 Theorem C14_atom_table_domain :
   map (fun r => match r with (l, o, s, _, _) => (l, o, s) end) atom_table = atom_domain.
 Proof. exact atom_table_domain. Qed.
@@ -17,7 +19,29 @@ Theorem C14_atom_table_model :
 Proof. exact atom_table_model. Qed.
 Print Assumptions C14_atom_table_model.
 
-(* every row of the regenerated _imul_atom_helper table is a true equation between 2x2 matrices, in any ring with i^2 = -1 *)
+Theorem C14_vphase_table_model :
+  map (fun r => match r with (l, r', _) => (l, r') end) vphase_table
+    = flat_map (fun l => map (fun o => (l, o)) [0; 1; 2; 3]%Z) [0; 1; 2; 3]%Z
+  /\ forallb (fun r => match r with (l, r', k) =>
+       ((vphase1 (pauli_of_code l) (pauli_of_code r')) mod 4 =? k)%Z end) vphase_table = true.
+Proof. exact vphase_table_model. Qed.
+Print Assumptions C14_vphase_table_model.
+
+Theorem C14_ppp_table_model :
+  map (fun r => match r with (a, b, _, _) => (a, b) end) ppp_table
+    = flat_map (fun l => map (fun o => (l, o)) [0; 1; 2; 3]%Z) [1; 2; 3]%Z
+  /\ forallb (fun r => match r with (a, b, k, c) =>
+       ((ppp_phase (pauli_of_code a) (pauli_of_code b)) mod 4 =? k)%Z
+       && (pcode (ppp_letter (pauli_of_code a) (pauli_of_code b)) =? c)%Z end) ppp_table = true.
+Proof. exact ppp_table_model. Qed.
+Print Assumptions C14_ppp_table_model.
+
+(* the letter <-> matrix dictionary is the one of the working tree: cirq.unitary of the gate behind each index *)
+Theorem C14_letter_matrix : forall {K} (O : Ops K), Laws O -> forall p, pauli_mat O p = letter_matrix O (pcode p).
+Proof. exact @letter_matrix_model. Qed.
+Print Assumptions C14_letter_matrix.
+
+(* every row of the regenerated _imul_atom_helper table is a true equation between 2x2 matrices *)
 Theorem C14_atom_table_sound : forall {K} (O : Ops K), PLaws O -> Forall (atom_row_ok O) atom_table.
 Proof. exact @atom_table_sound. Qed.
 Print Assumptions C14_atom_table_sound.
@@ -26,3 +50,181 @@ Theorem C14_pauli_mul_sound_1q : forall {K} (O : Ops K), PLaws O -> forall a b,
   mmul O (pauli_mat O a) (pauli_mat O b) = mscale O (ipow O (mul_phase a b)) (pauli_mat O (pxor a b)).
 Proof. exact @pauli_mul_sound_1q. Qed.
 Print Assumptions C14_pauli_mul_sound_1q.
+
+(* ---- D1: products, any number of qubits, coefficient and phase included ---- *)
+(* PauliString.__mul__ *)
+Theorem C14_pauli_mul_sound : forall {K} (O : Ops K), PLaws O -> forall qs (a b : pstr),
+  NoDup qs -> keys_ok qs (pm b) ->
+  ps_matrix O qs (ps_mul O a b) = mmul O (ps_matrix O qs a) (ps_matrix O qs b).
+Proof. exact @pauli_mul_sound. Qed.
+Print Assumptions C14_pauli_mul_sound.
+
+(* _imul_helper with sign -1 (inplace_left_multiply_by: self . other) and +1 (inplace_right_multiply_by, *=: other . self) *)
+Theorem C14_imul_sound_right : forall {K} (O : Ops K), PLaws O -> forall qs (P Q : pstr),
+  NoDup qs -> keys_ok qs (pm Q) ->
+  ps_matrix O qs (imul O (-1) P Q) = mmul O (ps_matrix O qs P) (ps_matrix O qs Q).
+Proof. exact @imul_sound_right. Qed.
+Print Assumptions C14_imul_sound_right.
+
+Theorem C14_imul_sound_left : forall {K} (O : Ops K), PLaws O -> forall qs (P Q : pstr),
+  NoDup qs -> keys_ok qs (pm Q) ->
+  ps_matrix O qs (imul O 1 P Q) = mmul O (ps_matrix O qs Q) (ps_matrix O qs P).
+Proof. exact @imul_sound_left. Qed.
+Print Assumptions C14_imul_sound_left.
+
+(* mutable strings, any PAULI_STRING_LIKE atom: specified through the immutable product they implement *)
+Theorem C14_mps_inplace_left_sound : forall {K} (O : Ops K) (L : PLaws O) qs (P : pstr) x,
+  NoDup qs -> plike_ok qs x ->
+  ps_matrix O qs (mps_inplace_left O P x) = mmul O (ps_matrix O qs P) (plike_matrix O qs x).
+Proof. exact @mps_inplace_left_sound. Qed.
+Print Assumptions C14_mps_inplace_left_sound.
+
+Theorem C14_mps_inplace_right_sound : forall {K} (O : Ops K) (L : PLaws O) qs (P : pstr) x,
+  NoDup qs -> plike_ok qs x ->
+  ps_matrix O qs (mps_inplace_right O P x) = mmul O (plike_matrix O qs x) (ps_matrix O qs P).
+Proof. exact @mps_inplace_right_sound. Qed.
+Print Assumptions C14_mps_inplace_right_sound.
+
+(* PauliString(contents..., qubit_pauli_map, coefficient): contents are right-multiplied in order *)
+Theorem C14_contents_sound_right : forall {K} (O : Ops K) (L : PLaws O) qs (P : pstr) l,
+  NoDup qs -> Forall (plike_ok qs) l ->
+  ps_matrix O qs (imul_contents O (-1) P l)
+  = mmul O (ps_matrix O qs P) (fold_left (fun M x => mmul O M (plike_matrix O qs x)) l (id_matrix O qs)).
+Proof. exact @imul_contents_sound_right. Qed.
+Print Assumptions C14_contents_sound_right.
+
+Theorem C14_contents_sound_left : forall {K} (O : Ops K) (L : PLaws O) qs (P : pstr) l,
+  NoDup qs -> Forall (plike_ok qs) l ->
+  ps_matrix O qs (imul_contents O 1 P l)
+  = mmul O (fold_left (fun M x => mmul O (plike_matrix O qs x) M) (rev l) (id_matrix O qs)) (ps_matrix O qs P).
+Proof. exact @imul_contents_sound_left. Qed.
+Print Assumptions C14_contents_sound_left.
+
+(* the product keeps keys distinct and invents none (so products can be chained) *)
+Theorem C14_ps_mul_keys_ok : forall {K} (O : Ops K) qs (t u : pstr),
+  keys_ok qs (pm t) -> keys_ok qs (pm u) -> keys_ok qs (pm (ps_mul O t u)).
+Proof. exact @ps_mul_keys_ok. Qed.
+Print Assumptions C14_ps_mul_keys_ok.
+
+(* dense strings: pauli_mask xor + _vectorized_pauli_mul_phase; shorter masks act as (...) (x) I *)
+Theorem C14_dense_mul_sound : forall {K} (O : Ops K), PLaws O -> forall (a b : dstr),
+  ds_matrix O (ds_mul O a b)
+  = mmul O (dense_matrix O (dcoef a) (pad (length (dmask b)) (dmask a)))
+           (dense_matrix O (dcoef b) (pad (length (dmask a)) (dmask b))).
+Proof. exact @dense_mul_sound. Qed.
+Print Assumptions C14_dense_mul_sound.
+
+Theorem C14_dense_mul_sound_eqlen : forall {K} (O : Ops K), PLaws O -> forall (a b : dstr),
+  length (dmask a) = length (dmask b) -> ds_matrix O (ds_mul O a b) = mmul O (ds_matrix O a) (ds_matrix O b).
+Proof. exact @dense_mul_sound_eqlen. Qed.
+Print Assumptions C14_dense_mul_sound_eqlen.
+
+Theorem C14_dense_imul_sound : forall {K} (O : Ops K), PLaws O -> forall (a b r : dstr), ds_imul O a b = Some r ->
+  ds_matrix O r = mmul O (ds_matrix O a) (dense_matrix O (dcoef b) (pad (length (dmask a)) (dmask b))).
+Proof. exact @dense_imul_sound. Qed.
+Print Assumptions C14_dense_imul_sound.
+
+(* ---- D2: commutation tests decide the sign in P Q = +- Q P ---- *)
+Theorem C14_pauli_commute_iff : forall {K} (O : Ops K), PLaws O -> forall qs (a b : pstr),
+  NoDup qs -> keys_ok qs (pm a) -> no_I (pm a) -> no_I (pm b) ->
+  (ps_commutes (pm a) (pm b) = true ->
+     mmul O (ps_matrix O qs a) (ps_matrix O qs b) = mmul O (ps_matrix O qs b) (ps_matrix O qs a))
+  /\ (ps_commutes (pm a) (pm b) = false ->
+     mmul O (ps_matrix O qs a) (ps_matrix O qs b)
+     = mscale O (kopp O (k1 O)) (mmul O (ps_matrix O qs b) (ps_matrix O qs a))).
+Proof. exact @pauli_commute_iff. Qed.
+Print Assumptions C14_pauli_commute_iff.
+
+Theorem C14_dense_commute_iff : forall {K} (O : Ops K), PLaws O -> forall ca cb la lb, length la = length lb ->
+  (ds_commutes la lb = true ->
+     mmul O (dense_matrix O ca la) (dense_matrix O cb lb) = mmul O (dense_matrix O cb lb) (dense_matrix O ca la))
+  /\ (ds_commutes la lb = false ->
+     mmul O (dense_matrix O ca la) (dense_matrix O cb lb)
+     = mscale O (kopp O (k1 O)) (mmul O (dense_matrix O cb lb) (dense_matrix O ca la))).
+Proof. exact @ds_commute_iff. Qed.
+Print Assumptions C14_dense_commute_iff.
+
+(* ---- D3: scalars, negation, squares and inverses, qubit remapping, dense <-> sparse, Pauli sums ---- *)
+Theorem C14_ps_scale_sound : forall {K} (O : Ops K), PLaws O -> forall qs (a : pstr) c,
+  ps_matrix O qs (ps_scale O a c) = mscale O c (ps_matrix O qs a).
+Proof. exact @ps_scale_sound. Qed.
+Print Assumptions C14_ps_scale_sound.
+
+Theorem C14_ps_mul_num_sound : forall {K} (O : Ops K), PLaws O -> forall qs (a : pstr) c, NoDup qs ->
+  ps_matrix O qs (ps_mul_num O a c) = mscale O c (ps_matrix O qs a).
+Proof. exact @ps_mul_num_sound. Qed.
+Print Assumptions C14_ps_mul_num_sound.
+
+Theorem C14_ps_neg_sound : forall {K} (O : Ops K), PLaws O -> forall qs (a : pstr),
+  ps_matrix O qs (ps_neg O a) = mscale O (kopp O (k1 O)) (ps_matrix O qs a).
+Proof. exact @ps_neg_sound. Qed.
+Print Assumptions C14_ps_neg_sound.
+
+Theorem C14_ps_square : forall {K} (O : Ops K), PLaws O -> forall qs (a : pstr),
+  mmul O (ps_matrix O qs a) (ps_matrix O qs a) = mscale O (kmul O (coef a) (coef a)) (id_matrix O qs).
+Proof. exact @ps_square. Qed.
+Print Assumptions C14_ps_square.
+
+(* P ** -1 keeps the letters and inverts the coefficient *)
+Theorem C14_ps_inverse : forall {K} (O : Ops K), PLaws O -> forall qs c cinv m, kmul O c cinv = k1 O ->
+  mmul O (ps_matrix O qs (mkP cinv m)) (ps_matrix O qs (mkP c m)) = id_matrix O qs
+  /\ mmul O (ps_matrix O qs (mkP c m)) (ps_matrix O qs (mkP cinv m)) = id_matrix O qs.
+Proof. exact @ps_inverse. Qed.
+Print Assumptions C14_ps_inverse.
+
+Theorem C14_ps_map_qubits_sound : forall {K} (O : Ops K) f qs qs' (a a' : pstr),
+  ps_map_qubits f a = Some a' -> map (assoc f) qs = map Some qs' ->
+  (forall k q, In k (pm_keys (pm a)) -> In q qs -> assoc f k = assoc f q -> k = q) ->
+  ps_matrix O qs' a' = ps_matrix O qs a.
+Proof. exact @ps_map_qubits_sound. Qed.
+Print Assumptions C14_ps_map_qubits_sound.
+
+Theorem C14_ds_on_sound : forall {K} (O : Ops K) qs (d : dstr) (p : pstr),
+  NoDup qs -> ds_on qs d = Some p -> ps_matrix O qs p = ds_matrix O d.
+Proof. exact @ds_on_sound. Qed.
+Print Assumptions C14_ds_on_sound.
+
+Theorem C14_ps_dense_sound : forall {K} (O : Ops K) qs (a : pstr) (d : dstr),
+  ps_dense qs a = Some d -> ds_matrix O d = ps_matrix O qs a.
+Proof. exact @ps_dense_sound. Qed.
+Print Assumptions C14_ps_dense_sound.
+
+Theorem C14_paulisum_ring_hom : forall {K} (O : Ops K), PLaws O -> forall qs a b c,
+  NoDup qs -> psum_ok qs a -> psum_ok qs b ->
+  psum_matrix O qs (psum_add O a b) = madd O (psum_matrix O qs a) (psum_matrix O qs b)
+  /\ psum_matrix O qs (psum_sub O a b) = madd O (psum_matrix O qs a) (mscale O (kopp O (k1 O)) (psum_matrix O qs b))
+  /\ psum_matrix O qs (psum_scale O a c) = mscale O c (psum_matrix O qs a)
+  /\ psum_matrix O qs (psum_mul O a b) = mmul O (psum_matrix O qs a) (psum_matrix O qs b).
+Proof. exact @paulisum_ring_hom. Qed.
+Print Assumptions C14_paulisum_ring_hom.
+
+Theorem C14_psum_neg_sound : forall {K} (O : Ops K), PLaws O -> forall qs a,
+  psum_matrix O qs (psum_neg O a) = mscale O (kopp O (k1 O)) (psum_matrix O qs a).
+Proof. exact @psum_neg_sound. Qed.
+Print Assumptions C14_psum_neg_sound.
+
+(* the exact instance the correspondence run evaluates satisfies the hypotheses of every theorem above *)
+Theorem C14_GQ_PLaws : PLaws GQOps.
+Proof. exact GQ_PLaws. Qed.
+Print Assumptions C14_GQ_PLaws.
+
+(* ---- non-vacuity: concrete instances of the hypotheses, and the model computing a known product ---- *)
+Example C14_ex_keys_ok : keys_ok [0; 1; 2]%Z [(2, pY); (0, pX)]%Z /\ NoDup [0; 1; 2]%Z /\ no_I [(2, pY); (0, pX)]%Z.
+Proof.
+  split; [split|split].
+  - repeat constructor; simpl; intuition discriminate.
+  - intros x [<-|[<-|[]]]; simpl; tauto.
+  - repeat constructor; simpl; intuition discriminate.
+  - intros e [<-|[<-|[]]]; discriminate.
+Qed.
+(* X(0) Y(1) * Y(0) Z(1) = (iZ)(iX) = -Z(0) X(1);  X*Y anticommute on one shared position *)
+Example C14_ex_product :
+  ps_eqb (ps_mul GQOps (mkP (gq 1 1 0 1) [(0, pX); (1, pY)]%Z) (mkP (gq 1 1 0 1) [(0, pY); (1, pZ)]%Z))
+         (mkP (gq (-1) 1 0 1) [(0, pZ); (1, pX)]%Z) = true
+  /\ ps_commutes [(0, pX)]%Z [(0, pY)]%Z = false /\ ps_commutes [(0, pX); (1, pY)]%Z [(0, pY); (1, pZ)]%Z = true.
+Proof. vm_compute. repeat split. Qed.
+Example C14_ex_ds_imul : exists r, ds_imul GQOps (mkD (gq 1 1 0 1) [pX; pY]) (mkD (gq 0 1 1 1) [pZ]) = Some r.
+Proof. eexists. reflexivity. Qed.
+Example C14_ex_map_qubits :
+  ps_map_qubits [(0, 5); (1, 7)]%Z (mkP (gq 1 1 0 1) [(1, pZ); (0, pX)]%Z) = Some (mkP (gq 1 1 0 1) [(7, pZ); (5, pX)]%Z).
+Proof. reflexivity. Qed.
